@@ -202,17 +202,17 @@ def gen(ctx, encs):
     # (iii) single-byte mutations (replace / delete / insert / duplicate) of valid encodings
     base = list(encs)
     rnd.shuffle(base)
-    base = base[:(600 if ctx.thorough else 60)] + WITNESSES[:12]
+    base = base[:(300 if ctx.thorough else 60)] + WITNESSES[:12]
     for e in base:
         pos = list(range(len(e)))
-        if not ctx.thorough and len(pos) > 10:
-            pos = sorted(rnd.sample(pos, 8))
+        npos = 12 if ctx.thorough else 8
+        if len(pos) > npos:
+            pos = sorted(rnd.sample(pos, npos))
         for p in pos:
-            reps = REPR if ctx.thorough else rnd.sample(REPR, 5)
-            for r in reps:
+            for r in rnd.sample(REPR, 8 if ctx.thorough else 5):
                 if r != e[p]:
                     add(rnd.choice([0, 1]), e[:p] + bytes([r]) + e[p + 1:], short_runs(e), 'mutation')
-                if ctx.thorough or rnd.random() < 0.3:
+                if rnd.random() < 0.3:
                     add(rnd.choice([0, 1]), e[:p] + bytes([r]) + e[p:], short_runs(e), 'mutation')
             add(rnd.choice([0, 1]), e[:p] + e[p + 1:], short_runs(e), 'mutation')
             add(rnd.choice([0, 1]), e[:p] + e[p:p + 1] + e[p:], short_runs(e), 'mutation')
